@@ -194,6 +194,66 @@ class ModuleCanon:
                 self._maybe_const(stmt.targets[0].id, stmt.value)
             elif isinstance(stmt, ast.AnnAssign) and isinstance(stmt.target, ast.Name) and stmt.value is not None:
                 self._maybe_const(stmt.target.id, stmt.value)
+        self._adopt_imported_helpers()
+
+    def _adopt_imported_helpers(self):
+        """`from .m import helper` where `helper` is a *new* one-expression function of module m: treated like a new helper of
+        this module (and substituted at its call sites), provided every name its expression uses from m is made available here
+        by the same kind of import (added to this tree) and does not clash with a name this module already binds differently."""
+        pkg = self.modname.split(".")
+        local_names = set(self.module_funcs) | {c.name for c in self.tree.body if isinstance(c, ast.ClassDef)} | {t.id for st in self.tree.body if isinstance(st, ast.Assign) for t in st.targets if isinstance(t, ast.Name)}
+        imported_here = {}
+        for imp in self.tree.body:
+            if isinstance(imp, ast.ImportFrom):
+                for al in imp.names:
+                    imported_here[al.asname or al.name] = (imp.module, imp.level, al.name)
+            elif isinstance(imp, ast.Import):
+                for al in imp.names:
+                    imported_here[(al.asname or al.name).split(".")[0]] = (al.name, 0, None)
+        extra_imports = []
+        for imp in list(self.tree.body):
+            if not isinstance(imp, ast.ImportFrom) or not imp.level:
+                continue
+            base = pkg[: len(pkg) - imp.level] if not self.modname.endswith("__init__") else pkg
+            src = ".".join(base + (imp.module.split(".") if imp.module else []))
+            for al in imp.names:
+                key = (src, al.name)
+                if key not in _NEW_HELPERS or al.asname or al.name in local_names:
+                    continue
+                fn, src_level_names, src_imports = _NEW_HELPERS[key]
+                params = {a.arg for a in fn.args.args}
+                expr = [x for x in fn.body if isinstance(x, ast.Return)][0].value
+                bound_inside = {n.id for c in ast.walk(expr) if isinstance(c, ast.comprehension) for n in ast.walk(c.target) if isinstance(n, ast.Name)}
+                free = {n.id for n in ast.walk(expr) if isinstance(n, ast.Name)} - params - bound_inside
+                ok = True
+                needed = []
+                for nm in free:
+                    if nm in __builtins__ if isinstance(__builtins__, dict) else hasattr(__builtins__, nm):
+                        continue
+                    if nm in src_level_names:
+                        # defined in the source module: must be importable here under the same name from the same module
+                        if nm in imported_here:
+                            ok = ok and imported_here[nm] == (imp.module, imp.level, nm)
+                        elif nm in local_names:
+                            ok = False
+                        else:
+                            needed.append(nm)
+                    elif nm in src_imports:
+                        ok = ok and nm in imported_here  # e.g. `np`, `sympy`: the same alias must exist here (assumed to denote the same module)
+                    else:
+                        ok = False
+                if not ok:
+                    continue
+                self.module_funcs[al.name] = copy.deepcopy(fn)
+                for nm in needed:
+                    extra_imports.append(ast.ImportFrom(module=imp.module, names=[ast.alias(name=nm, asname=None)], level=imp.level))
+                    imported_here[nm] = (imp.module, imp.level, nm)
+        if extra_imports:
+            # after the last import statement
+            last = max((i for i, st in enumerate(self.tree.body) if isinstance(st, (ast.Import, ast.ImportFrom))), default=-1)
+            for e in extra_imports:
+                ast.fix_missing_locations(e)
+            self.tree.body[last + 1:last + 1] = extra_imports
         # a name bound more than once is not a constant
         counts: Dict[str, int] = {}
         for stmt in ast.walk(self.tree):
@@ -635,10 +695,14 @@ _CHANGED_NAMES: Set[str] = set()
 _SIGNATURES: Dict[str, Optional[List[str]]] = {}
 
 
-def set_context(changed_names: Set[str], signatures: Dict[str, Optional[List[str]]]) -> None:
-    global _CHANGED_NAMES, _SIGNATURES
+_NEW_HELPERS: Dict = {}  # (module, name) -> (FunctionDef, module-level names of that module, imported names of that module)
+
+
+def set_context(changed_names: Set[str], signatures: Dict[str, Optional[List[str]]], new_helpers: Optional[Dict] = None) -> None:
+    global _CHANGED_NAMES, _SIGNATURES, _NEW_HELPERS
     _CHANGED_NAMES = set(changed_names)
     _SIGNATURES = dict(signatures)
+    _NEW_HELPERS = dict(new_helpers or {})
 
 
 def _repo_pure(name: str) -> bool:
@@ -2423,9 +2487,95 @@ def _sort_inert_runs(stmts: List[ast.stmt]) -> List[ast.stmt]:
     return out
 
 
+_SELF_CLASS: Optional[Tuple[str, List[str]]] = None  # (class name, dataclass init fields in order) of the method being normalised
+
+
+def set_self_class(info: Optional[Tuple[str, List[str]]]) -> None:
+    global _SELF_CLASS
+    _SELF_CLASS = info
+
+
+class _ReplaceToCtor(ast.NodeTransformer):
+    """Inside a method of a dataclass C: ``replace(self, k=v, ...)`` is ``C(f1, ..., fn)`` with ``self.fi`` for the fields not
+    given (no dataclass of this package is subclassed, so type(self) is C); keyword constructor calls become positional."""
+
+    def __init__(self, cname: str, fields: List[str]):
+        self.cname, self.fields = cname, fields
+
+    def visit_Call(self, node: ast.Call):
+        self.generic_visit(node)
+        fn = dotted(node.func) or ""
+        if fn in ("replace", "dataclasses.replace") and len(node.args) == 1 and isinstance(node.args[0], ast.Name) and node.args[0].id == "self" and node.keywords and all(k.arg in self.fields for k in node.keywords):
+            given = {k.arg: k.value for k in node.keywords}
+            args = [given.get(f, ast.Attribute(value=ast.Name(id="self", ctx=ast.Load()), attr=f, ctx=ast.Load())) for f in self.fields]
+            return ast.copy_location(ast.Call(func=ast.Name(id=self.cname, ctx=ast.Load()), args=args, keywords=[]), node)
+        if fn in (self.cname, "type(self)") or (isinstance(node.func, ast.Call) and norm(node.func) == "type(self)"):
+            if node.keywords and all(k.arg in self.fields for k in node.keywords) and len(node.args) + len(node.keywords) == len(self.fields):
+                rest = self.fields[len(node.args):]
+                given = {k.arg: k.value for k in node.keywords}
+                if set(given) == set(rest):
+                    return ast.copy_location(ast.Call(func=ast.Name(id=self.cname, ctx=ast.Load()), args=list(node.args) + [given[f] for f in rest], keywords=[]), node)
+        return node
+
+
+def _inline_local_expr_functions(f: ast.FunctionDef) -> None:
+    """A nested ``def g(p1, ..): return <expr>`` that is only ever *called* (positionally, with plain names / constants) is
+    replaced by its expression at every call site. The closure reads its free variables when it is called, and so does the
+    substituted expression, hence nothing changes as long as no comprehension / lambda at a call site rebinds one of them."""
+    for k, st in enumerate(list(f.body)):
+        if not (isinstance(st, ast.FunctionDef) and not st.decorator_list):
+            continue
+        a = st.args
+        body = strip_docstring(st.body)
+        if a.vararg or a.kwarg or a.kwonlyargs or a.defaults or a.posonlyargs or len(body) != 1 or not isinstance(body[0], ast.Return) or body[0].value is None:
+            continue
+        params = [x.arg for x in a.args]
+        expr = body[0].value
+        if any(isinstance(n, (ast.Lambda, ast.Yield, ast.YieldFrom, ast.Await, ast.NamedExpr)) for n in ast.walk(expr)) or any(isinstance(n, ast.Name) and n.id == st.name for n in ast.walk(expr)):
+            continue
+        counts = {p: sum(1 for n in ast.walk(expr) if isinstance(n, ast.Name) and n.id == p) for p in params}
+        inner_bound = {n.id for c in ast.walk(expr) if isinstance(c, ast.comprehension) for n in ast.walk(c.target) if isinstance(n, ast.Name)}
+        free = {n.id for n in ast.walk(expr) if isinstance(n, ast.Name)} - set(params) - inner_bound
+        uses = [n for x in f.body if x is not st for n in ast.walk(x) if isinstance(n, ast.Name) and n.id == st.name]
+        calls = [n for x in f.body if x is not st for n in ast.walk(x) if isinstance(n, ast.Call) and isinstance(n.func, ast.Name) and n.func.id == st.name]
+        if not calls or len(uses) != len(calls):
+            continue
+        if any(c.keywords or len(c.args) != len(params) or not all(isinstance(x, (ast.Name, ast.Constant)) or counts[p] <= 1 for x, p in zip(c.args, params)) or any(isinstance(x, ast.Starred) for x in c.args) for c in calls):
+            continue
+        # names bound by comprehensions / lambdas anywhere else in the function must not capture the closure's free names
+        rebinders = {n.id for x in f.body if x is not st for c in ast.walk(x) if isinstance(c, ast.comprehension) for n in ast.walk(c.target) if isinstance(n, ast.Name)}
+        rebinders |= {x.arg for y in f.body if y is not st for lam in ast.walk(y) if isinstance(lam, ast.Lambda) for x in lam.args.args}
+        if free & rebinders:
+            continue
+        # the free names must not be re-assigned after the definition in a way an eager reading would miss: both read at call time
+        class Sub(ast.NodeTransformer):
+            def visit_Call(self, node):
+                self.generic_visit(node)
+                if isinstance(node.func, ast.Name) and node.func.id == st.name:
+                    mapping = dict(zip(params, node.args))
+
+                    class P(ast.NodeTransformer):
+                        def visit_Name(self, n):
+                            return copy.deepcopy(mapping[n.id]) if n.id in mapping and isinstance(n.ctx, ast.Load) else n
+
+                    return ast.copy_location(P().visit(copy.deepcopy(expr)), node)
+                return node
+
+        for i, x in enumerate(f.body):
+            if x is not st:
+                f.body[i] = Sub().visit(x)
+        f.body.remove(st)
+        ast.fix_missing_locations(f)
+
+
 def canonical_function(fn: ast.FunctionDef, _nested: bool = False, rename: bool = True) -> ast.FunctionDef:
     f = fn if _nested else copy.deepcopy(fn)
     f.decorator_list = list(f.decorator_list)
+    if not _nested:
+        _inline_local_expr_functions(f)
+        if _SELF_CLASS is not None:
+            f = _ReplaceToCtor(*_SELF_CLASS).visit(f)
+            ast.fix_missing_locations(f)
     # nested functions first (they are closed units; the outer passes treat them as opaque statements)
     for i, st in enumerate(list(ast.walk(f))):
         pass
@@ -2447,6 +2597,8 @@ def canonical_function(fn: ast.FunctionDef, _nested: bool = False, rename: bool 
     ast.fix_missing_locations(f)
     _augadd_to_extend(f)
     f = _IterIdioms().visit(f)
+    if not _nested:
+        _inline_local_expr_functions(f)  # again: map(g, xs) has become (g(x) for x in xs)
     f.body = _reduce_lambda_to_loop(list(f.body), [0])
     for _round in range(3):
         f.body = _loop_raise_to_any(list(f.body))
